@@ -297,8 +297,18 @@ func c02NewWorld(t *testing.T, cfg c02Cfg, join bool) *c02World {
 			w.clients = append(w.clients, c)
 			t.Cleanup(c.CloseWithBye)
 		}
-		for i := range w.clients {
-			w.collect(i + 1) // join events
+		// join events arrive on other subjects than room messages: wait until the clients are quiet
+		for quiet := 0; quiet < 3; {
+			time.Sleep(15 * time.Millisecond)
+			n := 0
+			for i := range w.clients {
+				n += w.collect(i + 1)
+			}
+			if n == 0 {
+				quiet++
+			} else {
+				quiet = 0
+			}
 		}
 	}
 	return w
@@ -333,6 +343,11 @@ func (w *c02World) secret(id int) string {
 // backend received before the marker: room subjects deliver in order, so this is
 // everything earlier requests caused.
 func (w *c02World) collect(id int) int {
+	n, _ := w.collectEvents(id)
+	return n
+}
+
+func (w *c02World) collectEvents(id int) (int, []string) {
 	w.seq++
 	marker := fmt.Sprintf("c02-marker-%d", w.seq)
 	body := []byte(fmt.Sprintf(`{"type":"message","message":{"data":{"marker":"%s"}}}`, marker))
@@ -351,15 +366,18 @@ func (w *c02World) collect(id int) int {
 	ctx, cancel := context.WithTimeout(context.Background(), testTimeout)
 	defer cancel()
 	n := 0
+	var texts []string
 	for {
 		msg, err := w.clients[id-1].RunUntilMessage(ctx)
 		if err != nil {
 			w.t.Fatalf("waiting for marker of backend %d: %v", id, err)
 		}
 		if msg.Type == "event" && msg.Event != nil && msg.Event.Message != nil && strings.Contains(string(msg.Event.Message.Data), marker) {
-			return n
+			return n, texts
 		}
 		n++
+		js, _ := json.Marshal(msg)
+		texts = append(texts, string(js))
 	}
 }
 
@@ -383,16 +401,28 @@ type c02Op struct {
 	Body       string   `json:"body"` // hex
 	Claim      *int     `json:"claim,omitempty"` // backend the header is meant to name, -1 = none, absent = unknown
 
-	Status    int   `json:"status"`
-	Delivered []int `json:"delivered"`
-	Delay     int64 `json:"delay"`
+	Status    int      `json:"status"`
+	Delivered []int    `json:"delivered"`
+	Delay     int64    `json:"delay"`
+	Events    []string `json:"events,omitempty"` // what the clients received (diagnostics only)
 }
 
 type c02Case struct {
 	Id      int     `json:"id"`
 	Cfg     c02Cfg  `json:"cfg"`
 	Finding string  `json:"finding,omitempty"`
-	Ops     []c02Op `json:"ops"`
+	Ops     []c02Op `json:"ops,omitempty"`
+	// a request the server sent to a backend (outgoing direction); replayed by running the
+	// outgoing scenario of this configuration again
+	Outgoing *c02OutJson `json:"outgoing,omitempty"`
+}
+
+type c02OutJson struct {
+	Backend int    `json:"backend"`
+	Kind    string `json:"kind"`
+	Rnd     string `json:"rnd"`
+	Chk     string `json:"chk"`
+	Body    string `json:"body"`
 }
 
 func unhexS(s string) string { b, _ := hex.DecodeString(s); return string(b) }
@@ -538,7 +568,9 @@ func (w *c02World) exec(o *c02Op) string {
 	o.Delay = int64(w.last)
 	o.Delivered = []int{}
 	for i := range w.clients {
-		if n := w.collect(i + 1); n > 0 {
+		n, texts := w.collectEvents(i + 1)
+		o.Events = append(o.Events, texts...)
+		if n > 0 {
 			o.Delivered = append(o.Delivered, i+1)
 			if n > 1 {
 				o.Delivered = append(o.Delivered, i+1) // more than one event: makes the observation differ from any prediction
@@ -1124,8 +1156,20 @@ func TestVerifC02(t *testing.T) {
 	if env.replay != "" {
 		var cs []c02Case
 		readReplay(t, env.replay, &cs)
+		var outCfgs []c02Cfg
+		seen := map[string]bool{}
 		for i := range cs {
+			if cs[i].Outgoing != nil {
+				if k := cs[i].Cfg.key(); !seen[k] {
+					seen[k] = true
+					outCfgs = append(outCfgs, cs[i].Cfg)
+				}
+				continue
+			}
 			run(&cs[i])
+		}
+		if len(outCfgs) > 0 {
+			c02Outgoing(t, env, sink, outCfgs)
 		}
 		sink.close("replay")
 		return
@@ -1167,7 +1211,19 @@ func TestVerifC02(t *testing.T) {
 	run(c02BoundaryShift(world(catalog[0]), 900000))
 
 	c02Oversize(t, world(catalog[1]), sink)
-	c02Outgoing(t, env, sink, catalog)
+	c02Concurrent(t, env, world(catalog[1]), sink)
+	var outCfgs []c02Cfg
+	for ci, cfg := range catalog {
+		if cfg.Name == "single" || cfg.Name == "near3" {
+			continue
+		}
+		cfg.Name = "out_" + cfg.Name
+		if ci%2 == 1 {
+			cfg.PingLimit = 2 // this backend lets pings be combined
+		}
+		outCfgs = append(outCfgs, cfg)
+	}
+	c02Outgoing(t, env, sink, outCfgs)
 
 	sink.close("seeded requests to /api/v1/room/{id} of the real BackendServer+Hub (real HTTP connection or router call) over six configurations; " +
 		"non-trivial = the case contains an accepted (200) and a refused (403) request; distinct = distinct (configuration, class, status, delivery) sequences")
@@ -1198,6 +1254,105 @@ func c02Oversize(t *testing.T, w *c02World, sink *caseSink) {
 	if resp.StatusCode != http.StatusRequestEntityTooLarge || got != 0 {
 		sink.violation(900100, fmt.Sprintf("a correctly signed body of %d bytes (limit %d) was answered %d and caused %d events", len(body), c02MaxBody, resp.StatusCode, got), nil)
 	}
+}
+
+// Concurrent requests (real goroutines, real connections): valid and tampered requests of all
+// backends interleaved; every answer must be the one the checksum dictates and the clients
+// must receive no more events than requests were accepted.  A test, not a proof.
+func c02Concurrent(t *testing.T, env verifEnv, w *c02World, sink *caseSink) {
+	w.resetThrottler()
+	workers, per := 8, 40
+	if env.thorough() {
+		per = 400
+	}
+	n := len(w.cfg.Backends)
+	type res struct{ want, got, backend int }
+	results := make([][]res, workers)
+	var wg sync.WaitGroup
+	for wk := 0; wk < workers; wk++ {
+		wg.Add(1)
+		go func(wk int) {
+			defer wg.Done()
+			r := newVrng(env.seed, uint64(5000000+wk))
+			client := &http.Client{}
+			fails := 0
+			addrN := 0
+			for i := 0; i < per; i++ {
+				b := 1 + r.intn(n)
+				body := []byte(fmt.Sprintf(`{"type":"message","message":{"data":{"w":%d,"i":%d}}}`, wk, i))
+				rnd := fmt.Sprintf("%032x%032x", r.next(), r.next())
+				chk := c02Mac(w.secret(b), rnd, body)
+				hdr := w.base[b-1]
+				want := 200
+				switch r.intn(6) {
+				case 0:
+					chk = flipBit(chk, r.intn(len(chk)), r.intn(4))
+					want = 403
+				case 1:
+					body[len(body)-3] ^= 1
+					want = 403
+				case 2:
+					if n > 1 {
+						hdr = w.base[b%n] // another backend's URL
+						want = 403
+					}
+				case 3:
+					hdr = "" // no header: found by trying the secrets
+				}
+				if fails >= 7 {
+					fails = 0
+					addrN++
+				}
+				if want == 403 {
+					fails++
+				}
+				req, _ := http.NewRequest("POST", w.server.URL+"/api/v1/room/"+c02Room, bytes.NewReader(body))
+				req.Header.Set("Content-Type", "application/json")
+				req.Header.Set(c02HdrRandom, rnd)
+				req.Header.Set(c02HdrChecksum, chk)
+				if hdr != "" {
+					req.Header.Set(c02HdrBackend, hdr)
+				}
+				req.Header.Set("X-Real-IP", fmt.Sprintf("203.0.%d.%d", wk, 1+addrN%250))
+				resp, err := client.Do(req)
+				if err != nil {
+					t.Errorf("concurrent: %v", err)
+					return
+				}
+				io.Copy(io.Discard, resp.Body)
+				resp.Body.Close()
+				results[wk] = append(results[wk], res{want, resp.StatusCode, b})
+			}
+		}(wk)
+	}
+	wg.Wait()
+	wantEvents := make([]int, n+1)
+	bad := 0
+	for _, rs := range results {
+		for _, x := range rs {
+			if x.got != x.want {
+				bad++
+				if bad == 1 {
+					sink.violation(900200, fmt.Sprintf("concurrent requests: a request that must be answered %d was answered %d", x.want, x.got), nil)
+				}
+			}
+			if x.want == 200 {
+				wantEvents[x.backend]++
+			}
+		}
+	}
+	for b := 1; b <= n; b++ {
+		// an accepted request may be dropped by the room as stale when a request received later
+		// overtook it (Room.lastRoomRequests): fewer events are fine, more are not
+		got := w.collect(b)
+		if got > wantEvents[b] {
+			sink.violation(900201, fmt.Sprintf("concurrent requests: the client of backend %d received %d events for %d accepted requests", b, got, wantEvents[b]), nil)
+		}
+		sink.stats.Histogram["concurrent_accepted"] += wantEvents[b]
+		sink.stats.Histogram["concurrent_events_received"] += got
+	}
+	sink.stats.Histogram["concurrent_requests"] = workers * per
+	sink.stats.Histogram["concurrent_wrong_answers"] = bad
 }
 
 // ---- outgoing direction -------------------------------------------------------------------------
@@ -1304,22 +1459,16 @@ func (w *c02World) drive(id int, round int) {
 	c02WaitFor(t, "room/leave", func() bool { return w.kinds()[key("room/leave")] > leaves })
 }
 
-func c02Outgoing(t *testing.T, env verifEnv, sink *caseSink, catalog []c02Cfg) {
+func c02Outgoing(t *testing.T, env verifEnv, sink *caseSink, cfgs []c02Cfg) {
 	rounds := 2
 	if env.thorough() {
 		rounds = 12
 	}
 	var terms []string
-	id := 0
+	id := 700000
 	kinds := map[string]bool{}
-	for ci, cfg := range catalog {
-		if cfg.Name == "single" || cfg.Name == "near3" {
-			continue
-		}
-		cfg.Name = "out_" + cfg.Name
-		if ci%2 == 1 {
-			cfg.PingLimit = 2 // this backend lets pings be combined
-		}
+	seenRnd := map[string]int{}
+	for ci, cfg := range cfgs {
 		t.Run(fmt.Sprintf("out%d", ci), func(t *testing.T) {
 			w := c02NewWorld(t, cfg, false)
 			for round := 0; round < rounds; round++ {
@@ -1333,11 +1482,18 @@ func c02Outgoing(t *testing.T, env verifEnv, sink *caseSink, catalog []c02Cfg) {
 			for _, r := range w.fake.recs {
 				id++
 				if r.NRnd != 1 || r.NChk != 1 {
-					sink.violation(800000+id, fmt.Sprintf("request %s to backend %d carries %d random and %d checksum headers", r.Kind, r.Backend, r.NRnd, r.NChk), nil)
+					sink.violation(id, fmt.Sprintf("request %s to backend %d carries %d random and %d checksum headers", r.Kind, r.Backend, r.NRnd, r.NChk), nil)
 				}
+				if prev, dup := seenRnd[r.Rnd]; dup {
+					sink.violation(id, fmt.Sprintf("outgoing requests %d and %d carry the same random %q (statistical freshness test over the whole run)", prev, id, r.Rnd), nil)
+				}
+				seenRnd[r.Rnd] = id
 				secret := w.secret(r.Backend)
 				terms = append(terms, fmt.Sprintf("mkout %d%%N \"%s\" \"%s\" \"%s\" \"%s\" \"%s\"", id, hexS(secret), hexS(r.Rnd), hexS(r.Chk),
 					hex.EncodeToString(r.Body), c02Mac(secret, r.Rnd, r.Body)))
+				js, _ := json.Marshal(c02Case{Id: id, Cfg: cfg, Outgoing: &c02OutJson{Backend: r.Backend, Kind: r.Kind, Rnd: hexS(r.Rnd), Chk: hexS(r.Chk), Body: hex.EncodeToString(r.Body)}})
+				sink.jsonl.Write(append(js, '\n'))
+				sink.stats.Evaluations++
 				sink.count("outgoing_" + r.Kind)
 				sink.count("outgoing_" + cfg.Name)
 				kinds[r.Kind] = true
